@@ -266,7 +266,7 @@ def build_cf1d(spec: dict) -> tuple[xr.Dataset, Truth]:
         shift=shift, time_dim='time', depth_dim='depth', time_name='time', depth_names=['depth'],
         geometry_names=[lon_name, lat_name] + (['lon_bnds', 'lat_bnds'] if extra_vars else []),
         sizes=sizes, defined=(lat_b is not None and lon_b is not None),
-        lat_name=lat_name, lon_name=lon_name,
+        lat_name=lat_name, lon_name=lon_name, explicit=bool(extra_vars),
     )
     return ds, truth
 
